@@ -262,9 +262,9 @@ public:
 
 		{ // Update LRU
 			lock_guard lock(*lru_mutex);
-			lru.erase(p->second.lru);
-			lru.push_front(p);
-			p->second.lru=lru.begin();
+			// move the node instead of erase + push_front: no allocation that can fail
+			// between the two steps, the stored iterator stays valid
+			lru.splice(lru.begin(),lru,p->second.lru);
 		}
 
 		if(a)
